@@ -13,6 +13,7 @@ fn main() {
         "C06" => vh::c06::main(mode),
         "C20" => vh::c20::main(mode),
         "C19" => vh::c19::main(mode),
+        "C17" => vh::c17::main(mode),
         _ => {
             eprintln!("unknown property {id}");
             2
